@@ -1,9 +1,68 @@
 package main
 
-import "fmt"
+import (
+	"fmt"
+	"os"
+	"os/exec"
+	"strings"
+)
 
+// cmdSelftest runs the engine self-test harnesses (T00): every VerifT00_ok_* must hold and every
+// VerifT00_bad_* must yield a violation that replays natively.
 func cmdSelftest(args []string) int {
-	// term-level sanity: simplifier agrees with evaluator on random terms is covered by `go test`
-	fmt.Println("selftest: see go test ./... in /verif/symgo and symgo check T0x")
+	self, _ := os.Executable()
+	cmd := exec.Command(self, append([]string{"check", "T00", "--no-evidence"}, args...)...)
+	cmd.Env = os.Environ()
+	out, _ := cmd.CombinedOutput()
+	text := string(out)
+	fail := 0
+	seen := map[string]bool{}
+	for _, line := range strings.Split(text, "\n") {
+		line = strings.TrimSpace(line)
+		if strings.HasPrefix(line, "VerifT00_") {
+			name := line[:strings.IndexByte(line, ':')]
+			seen[name] = true
+			viol := !strings.Contains(line, "violations=0 ")
+			incon := !strings.Contains(line, "inconclusive=0 ")
+			switch {
+			case strings.HasPrefix(name, "VerifT00_ok_") && (viol || incon):
+				fmt.Println("SELFTEST FAIL (should hold):", line)
+				fail++
+			case strings.HasPrefix(name, "VerifT00_bad_") && !viol:
+				fmt.Println("SELFTEST FAIL (violation not found):", line)
+				fail++
+			}
+		}
+		if strings.HasPrefix(line, "ENGINE-ERROR") || strings.HasPrefix(line, "UNCONFIRMED") || strings.HasPrefix(line, "TRANSLATION-MISMATCH") || strings.HasPrefix(line, "VACUOUS") || strings.HasPrefix(line, "ERROR") {
+			fmt.Println("SELFTEST FAIL:", line)
+			fail++
+		}
+	}
+	nbad := 0
+	for n := range seen {
+		if strings.HasPrefix(n, "VerifT00_bad_") {
+			nbad++
+		}
+	}
+	confirmed := strings.Count(text, "VIOLATION property=T00")
+	if confirmed < nbad {
+		fmt.Printf("SELFTEST FAIL: only %d of %d seeded violations were confirmed natively\n", confirmed, nbad)
+		fail++
+	}
+	if len(seen) < 15 {
+		fmt.Println("SELFTEST FAIL: self-test harnesses did not run\n" + tailStr(text, 1500))
+		fail++
+	}
+	if fail > 0 {
+		return 1
+	}
+	fmt.Printf("selftest OK: %d harnesses, %d seeded violations found and replayed natively\n", len(seen), confirmed)
 	return 0
+}
+
+func tailStr(s string, n int) string {
+	if len(s) > n {
+		return s[len(s)-n:]
+	}
+	return s
 }
